@@ -249,7 +249,7 @@ class Bicomplex(object):
         return out
 
     def __rpow__(self, other):
-        return (np.log(other) * self).exp()
+        return (self * np.log(other)).exp()
 
     __radd__ = __add__
     __rmul__ = __mul__
